@@ -8,6 +8,8 @@
 // watcher's events and every hand-off; they also inject seeded yields to widen the explored interleavings.
 // usage: dropin_driver <trace.ndjson> <seed> <nScenarios> [firstScenario]
 #include <dirent.h>
+#include <dlfcn.h>
+#include <errno.h>
 #include <fcntl.h>
 #include <sys/inotify.h>
 #include <sys/stat.h>
@@ -44,6 +46,17 @@ struct Rng {
   bool chance(int pct) { return upto(100) < pct; }
   template <class T> const T& pick(const std::vector<T>& v) { return v[upto((int)v.size())]; }
 };
+
+// transient failures of the watch registration: the next N calls of inotify_add_watch fail with ENOSPC
+static std::atomic<int> g_failAddWatch{0};
+extern "C" int inotify_add_watch(int fd, const char* path, uint32_t mask) {
+  using Fn = int (*)(int, const char*, uint32_t);
+  static Fn real = (Fn)dlsym(RTLD_NEXT, "inotify_add_watch");
+  int left = g_failAddWatch.load();
+  while (left > 0 && !g_failAddWatch.compare_exchange_weak(left, left - 1)) {}
+  if (left > 0) { errno = ENOSPC; return -1; }
+  return real(fd, path, mask);
+}
 
 static const std::vector<std::string> kNames = {"a.json", "b.json", "c", ".hid.json"};
 static std::thread::id g_mainThread;
@@ -165,6 +178,7 @@ int main(int argc, char** argv) {
     auto engine = Oomd::Config2::compile(*root, pcc);
     if (!engine) { evEmit(J().str("e", "Abort").str("why", "harness").str("detail", "base config did not compile")); evFlush(); _exit(0); }
     Oomd::OomdContext ctx;
+    if (r.chance(10)) g_failAddWatch.store(1);   // also the very first registration may fail
     evEmit(J().str("e", "CtorBegin"));
     auto svc = Oomd::FsDropInService::create("/sys/fs/cgroup", *root, *engine, g_dir);
     evEmit(J().str("e", "CtorDone"));
@@ -233,6 +247,7 @@ int main(int argc, char** argv) {
           evEmit(opJ("rmdir", "", "", nullptr)); int rc = ::rmdir(g_dir.c_str()); evEmit(J().str("e", "FsRet").boolean("done", rc == 0));
           if (rc == 0) dirThere = false;
         } else {               // (re)create the directory
+          if (o.chance(35)) g_failAddWatch.store(1 + o.upto(2));   // the re-registration of the new directory fails once or twice
           evEmit(opJ("mkdir", "", "", nullptr)); int rc = ::mkdir(g_dir.c_str(), 0755); evEmit(J().str("e", "FsRet").boolean("done", rc == 0));
           if (rc == 0) dirThere = true;
         }
@@ -247,6 +262,7 @@ int main(int argc, char** argv) {
     ops.join();
     // ---- the file system is quiet now: wait until the watcher has nothing left to do, then a few ticks
     g_yieldSeed.store(0);
+    g_failAddWatch.store(0);
     for (int quietFor = 0, waited = 0; quietFor < 6 && waited < 400; waited++) {
       long before = g_hookCount.load();
       std::this_thread::sleep_for(std::chrono::milliseconds(10));
